@@ -32,7 +32,7 @@ func (sm *storedMessages) add(msg *IncMessage) {
 
 	if sm.messageCountPerSender[msg.Source] > limitPerSender {
 		sm.logger.Warnf("Received too many messages from %d (limit is %d) for topic %s",
-			msg.Source, limitPerSender, hex.EncodeToString(msg.Topic[:8]))
+			msg.Source, limitPerSender, hex.EncodeToString(topicPrefix(msg.Topic)))
 		return
 	}
 
@@ -44,6 +44,14 @@ func (sm *storedMessages) add(msg *IncMessage) {
 	if now.After(sm.lastUsed) {
 		sm.lastUsed = now
 	}
+}
+
+// topicPrefix returns at most the first 8 bytes of a topic, for logging.
+func topicPrefix(topic []byte) []byte {
+	if len(topic) > 8 {
+		return topic[:8]
+	}
+	return topic
 }
 
 func (sm *storedMessages) senders() []uint16 {
@@ -133,7 +141,7 @@ func (b *Box) getOrCreateMessagesByTopic(topic []byte) *storedMessages {
 
 	messages, exists = b.pendingMessages[string(topic)]
 	if !exists {
-		messages = &storedMessages{messageCountPerSender: make(map[uint16]int)}
+		messages = &storedMessages{logger: b.Logger, messageCountPerSender: make(map[uint16]int)}
 	}
 
 	b.pendingMessages[string(topic)] = messages
